@@ -132,13 +132,13 @@ class C16(Check):
         case = [fmt, wl, mk, list(subset)]
         ctx.cur = case
         # --- no-clobber, pre-existing files filled with a sentinel, and once more as empty files
-        self.no_clobber(d, f"{n}s", asm, prtxt, fmt, wl, subset, case, ctx, lambda name: SENTINEL + name.encode())
+        self.no_clobber(d, f"{n}s", asm, prtxt, fmt, wl, subset, case, ctx, lambda name: SENTINEL + name.encode(), retry_clean=clean)
         self.no_clobber(d, f"{n}z", asm, prtxt, fmt, wl, subset, case, ctx, lambda name: b"")
         # --- clobber twins: the default, and --clobber given explicitly
         for explicit in (None, True):
             self.clobber_twin(d, f"{n}{'e' if explicit else 'd'}", asm, prtxt, fmt, wl, subset, clean, case, explicit, ctx)
 
-    def no_clobber(self, d, n, asm, prtxt, fmt, wl, subset, case, ctx, content):
+    def no_clobber(self, d, n, asm, prtxt, fmt, wl, subset, case, ctx, content, retry_clean=None):
         ctx.evaluations += 1
         if len(subset) > 1:
             ctx.nontrivial += 1
@@ -163,7 +163,30 @@ class C16(Check):
                 if not any(name in said for name in subset):
                     ctx.violation("no-clobber-error-names-no-colliding-file", case, f"stderr/log: {said[-300:]!r}")
         ctx.outcome(h64((case, rc, sorted(after))))
+        if retry_clean is not None and rc != 0:
+            # history: the refused run is repeated at once, same process, same directory, now allowed to overwrite
+            rc2, _o, err2, _exc = cli.invoke_p2a(self.args(asm, prtxt, outd, fmt, wl, None))
+            if rc2 != 0:
+                ctx.violation("clobber-run-fails/after-refused-run", case, f"exit {rc2}: {err2[-300:]!r}")
+            else:
+                self.compare_with_clean(cli.dir_files(outd), retry_clean, outd, d, case, ctx, "/after-refused-run")
         cli.cleanup(outd)
+
+    def compare_with_clean(self, after, clean, outd, d, case, ctx, suffix=""):
+        norm = lambda files: {k: (v.replace(str(outd).encode(), b"<OUT>") if k.endswith(".log") else v) for k, v in files.items()}  # noqa: E731
+        a = norm(after)
+        c = {k: (v.replace(str(d / "out0").encode(), b"<OUT>") if k.endswith(".log") else v) for k, v in clean.items()}
+        if sorted(a) != sorted(c):
+            ctx.violation("clobber-file-set-differs" + suffix, case, f"{sorted(a)!r} vs {sorted(c)!r}")
+            return
+        for name in sorted(c):
+            if name.endswith(".log"):
+                if a[name] != c[name]:
+                    ctx.violation("clobber-log-not-rewritten" + suffix, case, f"{name}: {len(a[name])} vs {len(c[name])} bytes")
+                    break
+            elif a[name] != c[name]:
+                ctx.violation("clobber-file-not-completely-rewritten" + suffix, case, f"{name}: {len(a[name])} bytes, clean run {len(c[name])}")
+                break
 
     def clobber_twin(self, d, n, asm, prtxt, fmt, wl, subset, clean, case, explicit, ctx):
         ctx.evaluations += 1
@@ -204,4 +227,4 @@ class C16(Check):
 _ = Path
 CHECK = C16()
 # scope added in later rounds, kept in the evidence text
-CHECK.rule += ' The pre-existing files also as empty files.'
+CHECK.rule += ' The pre-existing files also as empty files. History: the refused --no-clobber run is repeated at once in the same process and directory with the default --clobber: exit 0 and every file == clean run.'
